@@ -142,3 +142,42 @@ def return_rhs(tree, spec, fn) -> str:
 
 
 KINDS["return_rhs"] = return_rhs
+
+
+def init_fields(tree, spec, fn) -> str:
+    """kind "init_fields": the attributes a Parameters class stores.  The `self.x = ...` targets of __init__ must be exactly
+    fn["prim"] + fn["der"] (in this order) and those of initialisation() exactly fn["der"] (a class without derived fields must
+    not override initialisation); anything else -- e.g. a new cached attribute the record model does not know -- is refused.
+    Emits  Definition <prefix>nfields : nat := number of stored attributes."""
+    cls = next((n for n in tree.body if isinstance(n, ast.ClassDef) and n.name == fn["py"]), None)
+    if cls is None:
+        raise Unsupported(f"class {fn['py']} not found")
+
+    def targets(name):
+        f = next((n for n in cls.body if isinstance(n, ast.FunctionDef) and n.name == name), None)
+        if f is None:
+            return None
+        out = []
+        for s in ast.walk(f):
+            tg = s.targets if isinstance(s, ast.Assign) else [s.target] if isinstance(s, (ast.AugAssign, ast.AnnAssign)) else []
+            for t in tg:
+                for e in (t.elts if isinstance(t, ast.Tuple) else [t]):
+                    if isinstance(e, ast.Attribute) and isinstance(e.value, ast.Name) and e.value.id == "self":
+                        out.append((s.lineno, e.attr))
+            if isinstance(s, ast.Call) and src(s.func) in ("setattr", "self.__setattr__", "self.__dict__.update", "vars"):
+                raise Unsupported(f"{fn['py']}.{name}: indirect attribute write {src(s)[:50]}")
+        return [a for _, a in sorted(out)]
+
+    init, re_ = targets("__init__"), targets("initialisation")
+    want = list(fn["prim"]) + list(fn["der"])
+    if init != want:
+        raise Unsupported(f"{fn['py']}.__init__ stores {init}, the model knows {want}")
+    if (re_ or []) != list(fn["der"]):
+        raise Unsupported(f"{fn['py']}.initialisation stores {re_}, the model knows {fn['der']}")
+    other = [n.name for n in cls.body if isinstance(n, ast.FunctionDef) and n.name not in ("__init__", "initialisation", "__repr__", "__str__")]
+    if other:
+        raise Unsupported(f"{fn['py']}: methods the model does not know: {other}")
+    return f"Definition {fn['prefix']}nfields : nat :=\n  {len(want)}.\n"
+
+
+KINDS["init_fields"] = init_fields
